@@ -127,15 +127,23 @@ func compareSubversion(va, vb string) int {
 	var a, b string
 	var anum, bnum bool
 	var res int
-	for res == 0 {
+	for first := true; res == 0; first = false {
 		a, va, anum = nextFrag(va)
 		b, vb, bnum = nextFrag(vb)
 		if a == "" && b == "" {
 			break
 		}
-		if anum && bnum {
+		switch {
+		case anum && bnum:
 			res = cmpNumeric(a, b)
-		} else {
+		case !first && a == "" && bnum:
+			// like dpkg, a missing trailing numeric part counts
+			// as zero ("1." == "1.0"); an empty (sub)version
+			// still sorts before everything but "~"
+			res = cmpNumeric("0", b)
+		case !first && b == "" && anum:
+			res = cmpNumeric(a, "0")
+		default:
 			res = cmpString(a, b)
 		}
 	}
